@@ -133,6 +133,19 @@ type World struct {
 	NC map[string]string
 	// nodes marked for deletion in the initial state (no queue command stands for them)
 	InitMarked map[string]bool
+	// names whose API objects were pushed into the cluster state since the log was last cut (see cutSynced)
+	synced []string
+}
+
+// cutSynced returns (sorted, de-duplicated) the node names the "informer" delivered since the last call.
+func (w *World) cutSynced() []string {
+	out := lo.Uniq(w.synced)
+	sort.Strings(out)
+	w.synced = nil
+	if out == nil {
+		out = []string{}
+	}
+	return out
 }
 
 func (w *World) ncName(node string) string {
@@ -333,6 +346,7 @@ func (w *World) AddPod(nodeName string) error {
 
 // Sync pushes the API objects of one node into the cluster state (what the informer controllers do).
 func (w *World) Sync(name string) error {
+	w.synced = append(w.synced, name)
 	nc := &v1.NodeClaim{}
 	if err := w.Client.Get(w.Ctx, types.NamespacedName{Name: w.ncName(name)}, nc); err == nil {
 		w.Cluster.UpdateNodeClaim(nc)
